@@ -299,7 +299,11 @@ class Engine:
                     if done:
                         last_corruption[0] = "file_" + op["how"]
                         # index damaged while the live process has already verified the file (see known_findings.json)
-                        index_swapped[0] = op["how"] == "index_swap" and proc_calls[0] > 0
+                        if op["how"] == "index_swap":
+                            index_swapped[0] = proc_calls[0] > 0
+                        elif op["how"] in ("garbage", "trunc0", "zero_fill", "delete"):
+                            index_swapped[0] = False  # the file was replaced as a whole
+                        # (byte flips and partial truncations may leave the damaged index page in effect)
                     log.add(clock.now_us, 0, "corrupt_file", "%s %s" % (op["how"], done))
                 elif kind == "parse":
                     ti = op["text"] % len(pool_texts)
@@ -340,7 +344,8 @@ class Engine:
                                     "None" if d is None else "a tree", "None" if ref is None else "a tree"))
                             else:
                                 outcome = ("wrong_result", "parser:parse", "tree differs from uncached parse under label %s" % label)
-                                others = [j for j, t2 in enumerate(pool_texts) if j != ti and self.reference(t2, label) == d]
+                                others = [j for j, t2 in enumerate(pool_texts) for lab in LABELS
+                                          if (j, lab) != (ti, label) and self.reference(t2, lab) == d]
                                 if index_swapped[0] and initialised and others:
                                     shape = ["index_swapped_after_the_process_verified_the_file"]
                                     outcome = (outcome[0], outcome[1], outcome[2] + "; it is the stored tree of text %d: the "
@@ -371,6 +376,8 @@ class Engine:
                     bump("probe:models_recreated", any("cache table layout didn't match" in m for m in msgs))
                     bump("probe:metadata_recreated", any("Metadata table layout" in m for m in msgs))
                     bump("probe:corrupt_file_recreated", any("corrupt, recreating" in m for m in msgs))
+                    if any("corrupt, recreating" in m for m in msgs):
+                        index_swapped[0] = False
                     bump("probe:dirty_bypass", any("Bypassing cache" in m for m in msgs))
                     bump("probe:busy_wait_on_leaked_connection", shim.stats["busy_handler"] > 0)
                     if miss and rows_before and any(h == hashes[ti] and v != label for (h, v) in rows_before):
